@@ -59,6 +59,26 @@ func (tr *Translator) assignItems(env *Env, c *FuncContract) (items []assignItem
 					}})
 				}
 				continue
+			case "spare":
+				// spare(s): the unused capacity of slice s (cells of its backing array beyond its length)
+				s := env.eval(call.Args[0])
+				st, ok := s.T.Underlying().(*types.Slice)
+				if !ok {
+					evalFail("spare() of non-slice")
+				}
+				arr, off, ln := slPart(s, 0), slPart(s, 1), slPart(s, 2)
+				for _, l := range u.leaves(st.Elem()) {
+					l := l
+					items = append(items, assignItem{comp: l.comp, pred: func(a string) string {
+						b := a
+						for range l.path {
+							b = "(fbase " + b + ")"
+						}
+						i := "(eidx " + b + ")"
+						return and(not(eq(arr, "0")), eq(a, u.leafAddr(ea(arr, i), st.Elem(), l.path)), "(>= "+i+" (+ "+off+" "+ln+"))")
+					}})
+				}
+				continue
 			case "map":
 				m := env.eval(call.Args[0])
 				mt, ok := m.T.Underlying().(*types.Map)
@@ -93,6 +113,15 @@ func (tr *Translator) assignItems(env *Env, c *FuncContract) (items []assignItem
 				for _, cn := range []string{"MBool", "MInt", "MReal", "MStr", "MPtr", "MSlice", "MIface"} {
 					items = append(items, assignItem{comp: cn, pred: func(a string) string { return eq("(obase "+a+")", "(obase "+p.E()+")") }})
 				}
+				continue
+			case "modelmaps":
+				// every map of the document model (all maps whose values are not bool): their contents may change
+				for _, cn := range append([]string{}, u.comps...) {
+					if (strings.HasPrefix(cn, "MD_") || strings.HasPrefix(cn, "MV_")) && !strings.HasSuffix(cn, "_Bool") {
+						items = append(items, assignItem{comp: cn, all: true})
+					}
+				}
+				items = append(items, assignItem{comp: "MLen", all: true})
 				continue
 			case "everything":
 				return nil, true
@@ -215,7 +244,7 @@ func (fc *fctx) callWith(c *FuncContract, key string, vars map[string]*Val, sig 
 		tr.trusted["assumed contract: "+key+" ("+why+")"] = true
 	}
 	for i, cl := range c.Clauses {
-		if cl.Kind != "requires" && cl.Kind != "assumes" {
+		if cl.Kind != "requires" {
 			continue
 		}
 		g := fc.evalClause(env, cl, key)
@@ -345,6 +374,7 @@ func verifyFunc(prog *ssa.Program, spkg *ssa.Package, contracts *Contracts, fn *
 	tr.autoRecvNonNil = opts.autoRecvNonNil
 	if c != nil {
 		tr.topProps = c.Props
+		tr.appendView = c.AppendView
 	}
 	if len(opts.props) > 0 && len(tr.topProps) == 0 {
 		tr.topProps = opts.props
@@ -377,6 +407,7 @@ func verifyFunc(prog *ssa.Program, spkg *ssa.Package, contracts *Contracts, fn *
 	for _, ax := range contracts.Axioms {
 		tr.fact(genv.eval(ax.E).E())
 	}
+	// laws of spec functions that name the result of a verified pure function (defines result == f(params))
 	// parameters
 	for i, p := range fn.Params {
 		v := fc.freshVal("p_"+sanitize(p.Name()), p.Type())
@@ -403,6 +434,10 @@ func verifyFunc(prog *ssa.Program, spkg *ssa.Package, contracts *Contracts, fn *
 	if c != nil {
 		env := fc.envAt(tr.cur)
 		for _, cl := range c.Clauses {
+			if cl.Kind == "uses" {
+				tr.fact(tr.instantiateLaw(env, cl))
+				continue
+			}
 			if cl.Kind == "requires" || cl.Kind == "assumes" {
 				tr.fact(fc.evalClause(env, cl, tr.topKey))
 				if cl.Kind == "assumes" {
@@ -428,7 +463,7 @@ func verifyFunc(prog *ssa.Program, spkg *ssa.Package, contracts *Contracts, fn *
 			suffix = fmt.Sprintf("@ret%d", k)
 		}
 		for i, cl := range c.Clauses {
-			if cl.Kind != "ensures" {
+			if cl.Kind != "ensures" && cl.Kind != "law" {
 				continue
 			}
 			name := cl.Name
@@ -533,4 +568,184 @@ func (tr *Translator) globalIdent(name string) *Val {
 		}
 	}
 	return nil
+}
+
+var allFuncs map[string]*ssa.Function
+
+// exportDefining: a contract with `defines result == f(p1..pn)` on a function that assigns nothing makes
+// every proved `ensures` of that function a law of f: forall p1..pn :: requires ==> ensures[result := f(p1..pn)].
+// (The ensures clauses are obligations of that function's own verification; here they are used as facts.)
+func (tr *Translator) exportDefining(genv *Env) {
+	for _, key := range tr.contracts.Order {
+		c := tr.contracts.Funcs[key]
+		if key == tr.topKey || c.Assigns == nil || len(c.Assigns.Items) != 0 {
+			continue
+		}
+		var def *Call
+		for _, cl := range c.Clauses {
+			if cl.Kind == "defines" {
+				if b, ok := cl.E.(*Binary); ok && b.Op == "==" {
+					if id, ok := b.X.(*Ident); ok && id.Name == "result" {
+						if call, ok := b.Y.(*Call); ok {
+							def = call
+						}
+					}
+				}
+			}
+		}
+		fn := allFuncs[key]
+		if def == nil || fn == nil {
+			continue
+		}
+		var vars []Param
+		okSig := true
+		for _, p := range fn.Params {
+			switch tr.u.sortOf(p.Type()) {
+			case "String":
+				vars = append(vars, Param{p.Name(), "string"})
+			case "Int":
+				vars = append(vars, Param{p.Name(), "int"})
+			case "Bool":
+				vars = append(vars, Param{p.Name(), "bool"})
+			default:
+				okSig = false
+			}
+		}
+		if !okSig {
+			continue
+		}
+		var pre Expr = &BoolLit{true}
+		var post Expr = &BoolLit{true}
+		for _, cl := range c.Clauses {
+			switch cl.Kind {
+			case "requires":
+				pre = &Binary{"&&", pre, cl.E}
+			case "ensures":
+				post = &Binary{"&&", post, substResult(cl.E, def)}
+			}
+		}
+		q := &Quant{Forall: true, Vars: vars, Body: &Binary{"==>", pre, post}}
+		func() {
+			defer func() {
+				if r := recover(); r != nil {
+					if _, ok := r.(evalError); !ok {
+						panic(r)
+					}
+				}
+			}()
+			tr.fact(genv.eval(q).E())
+			tr.trusted["law of "+def.Fn+" exported from the verified contract of "+key] = true
+		}()
+	}
+}
+
+func substResult(e Expr, repl Expr) Expr {
+	switch x := e.(type) {
+	case *Ident:
+		if x.Name == "result" {
+			return repl
+		}
+		return x
+	case *Unary:
+		return &Unary{x.Op, substResult(x.X, repl)}
+	case *Binary:
+		return &Binary{x.Op, substResult(x.X, repl), substResult(x.Y, repl)}
+	case *Cond:
+		return &Cond{substResult(x.C, repl), substResult(x.A, repl), substResult(x.B, repl)}
+	case *Call:
+		var args []Expr
+		for _, a := range x.Args {
+			args = append(args, substResult(a, repl))
+		}
+		return &Call{x.Fn, args}
+	case *Sel:
+		return &Sel{substResult(x.X, repl), x.F}
+	case *Index:
+		return &Index{substResult(x.X, repl), substResult(x.I, repl)}
+	case *Quant:
+		return &Quant{Forall: x.Forall, Vars: x.Vars, Body: substResult(x.Body, repl)}
+	}
+	return e
+}
+
+// exportLaws: a `law` clause of a (lemma) function is an obligation of that function and, everywhere else,
+// the fact  forall params :: requires ==> law.  It must mention only parameters of basic sorts and spec functions.
+func (tr *Translator) exportLaws(genv *Env) {
+	for _, key := range tr.contracts.Order {
+		c := tr.contracts.Funcs[key]
+		if key == tr.topKey {
+			continue
+		}
+		fn := allFuncs[key]
+		if fn == nil {
+			continue
+		}
+		for _, cl := range c.Clauses {
+			if cl.Kind != "law" {
+				continue
+			}
+			var vars []Param
+			okSig := true
+			for _, p := range fn.Params {
+				switch tr.u.sortOf(p.Type()) {
+				case "String":
+					vars = append(vars, Param{p.Name(), "string"})
+				case "Int":
+					vars = append(vars, Param{p.Name(), "int"})
+				case "Bool":
+					vars = append(vars, Param{p.Name(), "bool"})
+				default:
+					okSig = false
+				}
+			}
+			if !okSig {
+				continue
+			}
+			var pre Expr = &BoolLit{true}
+			for _, rc := range c.Clauses {
+				if rc.Kind == "requires" {
+					pre = &Binary{"&&", pre, rc.E}
+				}
+			}
+			q := &Quant{Forall: true, Vars: vars, Body: &Binary{"==>", pre, cl.E}}
+			tr.fact(genv.eval(q).E())
+			tr.trusted["law "+cl.Name+" proved in "+key] = true
+		}
+	}
+}
+
+// instantiateLaw: `uses lemma.law(args)` yields  requires_of_lemma[params:=args] ==> law[params:=args].
+func (tr *Translator) instantiateLaw(env *Env, cl *Clause) string {
+	i := strings.LastIndex(cl.Name, ".")
+	if i < 0 {
+		evalFail("uses: want lemmaFunc.lawName")
+	}
+	key, lawName := cl.Name[:i], cl.Name[i+1:]
+	c := tr.contracts.Funcs[key]
+	fn := allFuncs[key]
+	if c == nil || fn == nil {
+		evalFail("uses: unknown lemma function %s", key)
+	}
+	if len(cl.Items) != len(fn.Params) {
+		evalFail("uses %s: wrong number of arguments", cl.Name)
+	}
+	n := &Env{tr: tr, vars: map[string]*Val{}, st: env.st, old: env.old}
+	for i, p := range fn.Params {
+		n.vars[p.Name()] = env.eval(cl.Items[i])
+	}
+	var pre []string
+	var law string
+	for _, lc := range c.Clauses {
+		switch {
+		case lc.Kind == "requires":
+			pre = append(pre, n.eval(lc.E).E())
+		case lc.Kind == "law" && lc.Name == lawName:
+			law = n.eval(lc.E).E()
+		}
+	}
+	if law == "" {
+		evalFail("uses: lemma %s has no law %s", key, lawName)
+	}
+	tr.trusted["law "+cl.Name+" (proved in the lemma function, instantiated here)"] = true
+	return implies(and(pre...), law)
 }
